@@ -1,0 +1,206 @@
+//! Observation hooks for external runtime monitors.
+//!
+//! Compiled only with the `verif-hooks` cargo feature (off by default, never
+//! enabled in production builds). Everything here is pure observation, or a
+//! knob that is a no-op unless an external harness set it. A worker is
+//! single-threaded: every hook is called from the worker's own thread, at the
+//! point where the state it shadows changes, and takes one leaf lock last, so
+//! the monitor state cannot race with the state it mirrors.
+//!
+//! Workers are identified by the *thread name* of the thread that runs
+//! `Server::run` (an in-process harness runs several workers, one per thread).
+
+use std::{
+    cell::RefCell,
+    collections::{BTreeMap, HashMap},
+    sync::{
+        Arc, Mutex, OnceLock,
+        atomic::{AtomicBool, AtomicI64, AtomicU64, Ordering},
+    },
+    time::Instant,
+};
+
+use sozu_command::state::ConfigState;
+
+/// One backend's counters as seen at the end of an event-loop iteration
+#[derive(Clone, Debug, Default, PartialEq, Eq)]
+pub struct BackendSnapshot {
+    pub cluster_id: String,
+    pub backend_id: String,
+    pub address: String,
+    pub active_connections: usize,
+    pub active_requests: usize,
+}
+
+/// Worker bookkeeping as seen at the end of an event-loop iteration
+#[derive(Clone, Debug, Default, PartialEq, Eq)]
+pub struct LoopSnapshot {
+    pub iteration: u64,
+    pub nb_connections: usize,
+    pub max_connections: usize,
+    pub can_accept: bool,
+    pub slab_len: usize,
+    pub base_sessions_count: usize,
+    pub pool_used: usize,
+    pub accept_queue_len: usize,
+    pub per_cluster_ip_entries: usize,
+    pub per_cluster_ip_total: usize,
+    pub per_cluster_ip_max: usize,
+    pub cluster_ip_tracks: usize,
+    pub shutting_down: bool,
+    pub backends: Vec<BackendSnapshot>,
+}
+
+#[derive(Clone, Debug)]
+pub struct Event {
+    pub at: Instant,
+    pub kind: &'static str,
+    pub detail: String,
+}
+
+/// Per-worker monitor state, shared with the harness through [`probe`]
+#[derive(Default)]
+pub struct Probe {
+    pub counters: Mutex<BTreeMap<String, u64>>,
+    pub snapshot: Mutex<LoopSnapshot>,
+    /// running maximum of `nb_connections` over all iterations
+    pub max_nb_connections: AtomicU64,
+    /// number of iterations in which `nb_connections > max_connections`
+    pub over_limit_iterations: AtomicU64,
+    pub events: Mutex<Vec<Event>>,
+    /// the harness raises this flag to get one copy of the worker's
+    /// `ConfigState` at the end of the next iteration
+    pub dump_requested: AtomicBool,
+    pub state_dump: Mutex<Option<ConfigState>>,
+    /// integer knobs set by the harness *before* the worker starts;
+    /// negative = unset
+    pub knobs: Mutex<HashMap<String, AtomicI64>>,
+}
+
+fn registry() -> &'static Mutex<HashMap<String, Arc<Probe>>> {
+    static REGISTRY: OnceLock<Mutex<HashMap<String, Arc<Probe>>>> = OnceLock::new();
+    REGISTRY.get_or_init(|| Mutex::new(HashMap::new()))
+}
+
+/// Get (or create) the probe of the worker whose thread is called `name`
+pub fn probe(name: &str) -> Arc<Probe> {
+    let mut registry = registry().lock().unwrap_or_else(|e| e.into_inner());
+    registry.entry(name.to_owned()).or_default().clone()
+}
+
+/// Forget a worker (harness-side cleanup between runs)
+pub fn forget(name: &str) {
+    let mut registry = registry().lock().unwrap_or_else(|e| e.into_inner());
+    registry.remove(name);
+}
+
+thread_local! {
+    static CURRENT: RefCell<Option<Arc<Probe>>> = const { RefCell::new(None) };
+}
+
+/// The probe of the calling thread
+pub fn current() -> Arc<Probe> {
+    CURRENT.with(|c| {
+        let mut c = c.borrow_mut();
+        if let Some(p) = c.as_ref() {
+            return p.clone();
+        }
+        let thread = std::thread::current();
+        let name = match thread.name() {
+            Some(n) => n.to_owned(),
+            None => format!("{:?}", thread.id()),
+        };
+        let p = probe(&name);
+        *c = Some(p.clone());
+        p
+    })
+}
+
+impl Probe {
+    pub fn set_knob(&self, key: &str, value: i64) {
+        let mut knobs = self.knobs.lock().unwrap_or_else(|e| e.into_inner());
+        knobs
+            .entry(key.to_owned())
+            .or_insert_with(|| AtomicI64::new(-1))
+            .store(value, Ordering::SeqCst);
+    }
+
+    pub fn knob(&self, key: &str) -> Option<i64> {
+        let knobs = self.knobs.lock().unwrap_or_else(|e| e.into_inner());
+        knobs
+            .get(key)
+            .map(|v| v.load(Ordering::SeqCst))
+            .filter(|v| *v >= 0)
+    }
+
+    pub fn counter(&self, key: &str) -> u64 {
+        let counters = self.counters.lock().unwrap_or_else(|e| e.into_inner());
+        counters.get(key).copied().unwrap_or(0)
+    }
+
+    pub fn counters(&self) -> BTreeMap<String, u64> {
+        self.counters
+            .lock()
+            .unwrap_or_else(|e| e.into_inner())
+            .clone()
+    }
+
+    pub fn snapshot(&self) -> LoopSnapshot {
+        self.snapshot
+            .lock()
+            .unwrap_or_else(|e| e.into_inner())
+            .clone()
+    }
+
+    pub fn events(&self) -> Vec<Event> {
+        self.events.lock().unwrap_or_else(|e| e.into_inner()).clone()
+    }
+}
+
+/// Add `n` to the calling worker's counter `key`
+pub fn count(key: &str, n: u64) {
+    let p = current();
+    let mut counters = p.counters.lock().unwrap_or_else(|e| e.into_inner());
+    *counters.entry(key.to_owned()).or_insert(0) += n;
+}
+
+/// Append an event to the calling worker's log
+pub fn event(kind: &'static str, detail: String) {
+    let p = current();
+    let mut events = p.events.lock().unwrap_or_else(|e| e.into_inner());
+    events.push(Event {
+        at: Instant::now(),
+        kind,
+        detail,
+    });
+}
+
+/// Value of an integer knob for the calling worker (None when unset)
+pub fn knob(key: &str) -> Option<i64> {
+    current().knob(key)
+}
+
+/// Publish the end-of-iteration snapshot of the calling worker
+pub fn loop_snapshot(mut snapshot: LoopSnapshot) {
+    let p = current();
+    p.max_nb_connections
+        .fetch_max(snapshot.nb_connections as u64, Ordering::SeqCst);
+    if snapshot.nb_connections > snapshot.max_connections {
+        p.over_limit_iterations.fetch_add(1, Ordering::SeqCst);
+    }
+    let mut slot = p.snapshot.lock().unwrap_or_else(|e| e.into_inner());
+    snapshot.iteration = slot.iteration + 1;
+    *slot = snapshot;
+}
+
+/// True when the harness asked for a `ConfigState` dump of the calling worker
+pub fn dump_requested() -> bool {
+    current().dump_requested.load(Ordering::SeqCst)
+}
+
+/// Hand the requested dump over and clear the request
+pub fn publish_state_dump(dump: ConfigState) {
+    let p = current();
+    *p.state_dump.lock().unwrap_or_else(|e| e.into_inner()) = Some(dump);
+    p.dump_requested.store(false, Ordering::SeqCst);
+}
